@@ -347,6 +347,14 @@ class MaxAbs(Contract):
             arrs = [nrng.uniform(-10, 10, (rng.randint(1, 4),) if rng.random() < 0.5 else (rng.randint(1, 3), rng.randint(1, 3))) for _ in range(rng.randint(1, 3))]
             yield tuple(arrs), dict(nan=rng.random() < 0.5)
         yield (np.array([1.0, -5.0]), 3.0), {}
+        # integer dtypes: unsigned (no negation is meaningful), small signed (above the dtype minimum: F12), mixed with floats
+        for dt in ("uint8", "uint16", "uint64", "int8", "int16", "int64"):
+            info = np.iinfo(dt)
+            lo, hi = max(info.min + 1, -1000), min(info.max, 1000)
+            arrs = [nrng.randint(lo, hi + 1, rng.randint(1, 5)).astype(dt) for _ in range(rng.randint(1, 2))]
+            if rng.random() < 0.4:
+                arrs.append(nrng.uniform(-3, 3, 2))
+            yield tuple(arrs), dict(nan=rng.random() < 0.5)
 
     def ensures(self, a, r):
         arrs = [x if isinstance(x, SymArr) else None for x in a.args]
